@@ -20,6 +20,8 @@ var craftedSpecs = []struct{ name, spec string }{
 	{"paths-and-webhooks-share-security", `{"openapi":"3.1.0","info":{"title":"t","version":"1"},"security":[{"k":[]}],"paths":{"/a":{"get":{"operationId":"a","responses":{"200":{"description":"ok"}}}}},"webhooks":{"e":{"post":{"operationId":"hook","security":[],"responses":{"200":{"description":"ok"}}}}},"components":{"securitySchemes":{"k":{"type":"apiKey","in":"query","name":"key"}}}}`},
 	{"two-pattern-responses-same-schema", `{"openapi":"3.0.3","info":{"title":"t","version":"1"},"paths":{"/a":{"get":{"operationId":"a","responses":{"200":{"description":"ok"},"4XX":{"description":"f","content":{"application/json":{"schema":{"$ref":"#/components/schemas/Fault"}}}},"5XX":{"description":"f","content":{"application/json":{"schema":{"$ref":"#/components/schemas/Fault"}}}}}}}},"components":{"schemas":{"Fault":{"type":"object","properties":{"m":{"type":"string"}}}}}}`},
 	{"pattern-and-default-response-same-schema", `{"openapi":"3.0.3","info":{"title":"t","version":"1"},"paths":{"/a":{"get":{"operationId":"a","responses":{"200":{"description":"ok"},"4XX":{"description":"f","content":{"application/json":{"schema":{"$ref":"#/components/schemas/Fault"}}}},"default":{"description":"f","content":{"application/json":{"schema":{"$ref":"#/components/schemas/Fault"}}}}}}},"/b":{"get":{"operationId":"b","responses":{"200":{"description":"ok"}}}}},"components":{"schemas":{"Fault":{"type":"object","properties":{"m":{"type":"string"}}}}}}`},
+	{"two-responses-same-nullable-primitive", `{"openapi":"3.0.3","info":{"title":"t","version":"1"},"paths":{"/a":{"get":{"operationId":"a","responses":{"200":{"description":"r","content":{"application/json":{"schema":{"type":"integer","format":"int32","nullable":true}}}},"400":{"description":"r","content":{"application/json":{"schema":{"type":"integer","format":"int32","nullable":true}}}}}}}}}`},
+	{"ok-and-default-response-same-nullable-primitive", `{"openapi":"3.0.3","info":{"title":"t","version":"1"},"paths":{"/a":{"get":{"operationId":"a","responses":{"200":{"description":"r","content":{"application/json":{"schema":{"type":"integer","format":"int32","nullable":true}}}},"default":{"description":"r","content":{"application/json":{"schema":{"type":"integer","format":"int32","nullable":true}}}}}}},"/b":{"get":{"operationId":"b","responses":{"200":{"description":"ok"}}}}}}`},
 }
 
 var smallSpecs = []string{"examples/petstore.yml", "positive/webhooks.json", "positive/security.json"}
